@@ -71,7 +71,7 @@ def run(F, ctx):
             ctx.site("%s: limit set per iteration of a non-chaining loop" % f.name, c.where(), ok=True)
             continue
         # guard: a branch that decides whether the call runs, whose condition derives from `last()` / `len()` of the iterated order
-        finals = [x for x in f.normal_calls() if re.search(r"<impl \[usize\]>::last$|Vec::<usize>::len$|<impl \[usize\]>::len$|Peekable<.*>::peek", x.static_args or "")]
+        finals = [x for x in f.normal_calls() if re.search(r"<impl \[.*\]>::(last|len)$|Vec::<.*>::len$|Peekable<.*>::peek", x.static_args or "")]
         fd = set()
         for x in finals:
             fd |= f.derive({x.dst["l"]}, through_calls=True)
